@@ -245,14 +245,76 @@ pub fn run(_tier: &str) -> Report {
             }
         }
     }
+    // ---- constructors at the length limit, the compile-time-checked constructors, and strings the statement excludes by name
+    let mut f_grammar = vec![];
+    {
+        let server = <&ServerName>::try_from("s.org").unwrap();
+        for len in [1usize, 100, 200, 240, 248, 249, 250, 251, 255, 300, 1000] {
+            n += 1;
+            let local = "a".repeat(len);
+            let full = format!("@{local}:s.org");
+            let parser_accepts = <&UserId>::try_from(full.as_str()).is_ok();
+            let built: Vec<(&str, Option<String>)> = vec![
+                ("UserId::parse_with_server_name", UserId::parse_with_server_name(local.as_str(), server).ok().map(|u| u.as_str().to_owned())),
+                ("UserId::parse_with_server_name_rc", UserId::parse_with_server_name_rc(local.as_str(), server).ok().map(|u| u.as_str().to_owned())),
+                ("UserId::parse_with_server_name_arc", UserId::parse_with_server_name_arc(local.as_str(), server).ok().map(|u| u.as_str().to_owned())),
+            ];
+            for (ctor, got) in built {
+                match got {
+                    Some(id) if <&UserId>::try_from(id.as_str()).is_err() => {
+                        fail(&mut f_ctor, json!({"ctor": ctor, "input": format!("a localpart of {len} bytes and the server name s.org"), "observed": format!("builds an identifier of {} bytes that the parser rejects", id.len())}))
+                    }
+                    None if parser_accepts => fail(&mut f_ctor, json!({"ctor": ctor, "input": format!("a localpart of {len} bytes and the server name s.org"), "observed": "refused although the parser accepts the identifier"})),
+                    _ => {}
+                }
+            }
+        }
+        // base64_public_key! / owned_base64_public_key!: checked at compile time, must give the parsed key at run time
+        n += 1;
+        let r = std::panic::catch_unwind(|| {
+            let k = ruma_common::base64_public_key!("YWJj");
+            let o = ruma_common::owned_base64_public_key!("YWJj");
+            k.as_str() == "YWJj" && o.as_str() == "YWJj" && <&ruma_common::Base64PublicKey>::try_from("YWJj").map(|p| p.as_str() == k.as_str()).unwrap_or(false)
+        });
+        if !matches!(r, Ok(true)) {
+            fail(&mut f_ctor, json!({"ctor": "base64_public_key!(\"YWJj\") / owned_base64_public_key!(\"YWJj\")", "observed": format!("{:?}", r.map_err(|_| "panic"))}));
+        }
+        // "no NUL or colon in localparts"; an MXC URI has a non-empty media ID
+        for (ty, text) in [("EventId", "$a\0b:s.org"), ("EventId", "$a\0b"), ("EventId", "$\0"), ("UserId", "@a\0b:s.org"), ("RoomAliasId", "#a\0b:s.org"), ("RoomId", "!a\0b:s.org"), ("RoomId", "!a\0b")] {
+            n += 1;
+            let accepted = match ty {
+                "EventId" => <&EventId>::try_from(text).is_ok() || OwnedEventId::try_from(text).is_ok() || serde_json::from_value::<OwnedEventId>(json!(text)).is_ok(),
+                "UserId" => <&UserId>::try_from(text).is_ok(),
+                "RoomAliasId" => <&RoomAliasId>::try_from(text).is_ok(),
+                _ => <&RoomId>::try_from(text).is_ok(),
+            };
+            if accepted {
+                fail(&mut f_grammar, json!({"type": ty, "input": text, "observed": "an identifier containing NUL is accepted"}));
+            }
+        }
+        for text in ["mxc://s.org/", "mxc://s.org:80/", "mxc://1.2.3.4/"] {
+            n += 1;
+            let m = <&MxcUri>::from(text);
+            if m.is_valid() || m.validate().is_ok() || m.parts().is_ok() || m.media_id().is_ok() {
+                fail(&mut f_grammar, json!({"type": "MxcUri", "input": text, "observed": "an MXC URI with an empty media ID is accepted"}));
+            }
+        }
+        for text in ["mxc://s.org/a", "mxc://s.org/A-b_9"] {
+            n += 1;
+            if !<&MxcUri>::from(text).is_valid() {
+                fail(&mut f_grammar, json!({"type": "MxcUri", "input": text, "observed": "a valid MXC URI is rejected"}));
+            }
+        }
+    }
     Report {
-        bound: format!("{} candidate strings (5 sigils x 9 localparts x 13 hosts x 10 ports - thorough tier: 21 x 30 x 20 -, mxc and key id shapes, 253..256-byte boundaries) x 12 identifier types (incl. 5 key identifier types)", cands.len()),
+        bound: format!("{} candidate strings (5 sigils x 9 localparts x 13 hosts x 10 ports - thorough tier: 21 x 30 x 20 -, mxc and key id shapes, 253..256-byte boundaries) x 12 identifier types (incl. 5 key identifier types); parse_with_server_name with localparts of 1..1000 bytes; the base64_public_key! macros; 7 identifiers with NUL and 3 MXC URIs without media ID", cands.len()),
         cases: n,
         obligations: vec![
             ("borrowed_owned_shared_and_serde_forms_agree_and_store_the_input", n, f_forms),
             ("accessors_recompose_to_the_original_string", n, f_parts),
             ("constructed_identifiers_are_accepted_by_the_parser", n, f_ctor),
             ("identifier_types_never_panic", n, f_panic),
+            ("identifiers_with_nul_and_mxc_uris_without_media_id_are_rejected", n, f_grammar),
         ],
     }
 }
